@@ -61,3 +61,24 @@ func YieldPoint(kind string) {
 	}
 	Record(t, c, false, 0, 0, nil)
 }
+
+// StmtYields switches statement-level yield points on (only the
+// shared-reader scenario with a binary built by `rewrite -yields` uses it).
+var StmtYields bool
+
+// Y is what `rewrite -yields` inserts before every statement of the library.
+func Y() {
+	if !StmtYields {
+		return
+	}
+	s := G
+	if s == nil {
+		return
+	}
+	t := s.cur
+	if t == nil || t.quiet > 0 || t.Killed {
+		return
+	}
+	t.yield(Call{Kind: "stmt", Local: true})
+	s.StmtSteps++
+}
